@@ -58,6 +58,9 @@ Model/Observe.vos Model/Observe.vok Model/Observe.required_vos: Model/Observe.v 
 Model/OrderHist.vo Model/OrderHist.glob Model/OrderHist.v.beautified Model/OrderHist.required_vo: Model/OrderHist.v Gen/GenStruct.vo
 Model/OrderHist.vio: Model/OrderHist.v Gen/GenStruct.vio
 Model/OrderHist.vos Model/OrderHist.vok Model/OrderHist.required_vos: Model/OrderHist.v Gen/GenStruct.vos
+Model/Reorder.vo Model/Reorder.glob Model/Reorder.v.beautified Model/Reorder.required_vo: Model/Reorder.v Gen/GenStruct.vo Model/OrderHist.vo
+Model/Reorder.vio: Model/Reorder.v Gen/GenStruct.vio Model/OrderHist.vio
+Model/Reorder.vos Model/Reorder.vok Model/Reorder.required_vos: Model/Reorder.v Gen/GenStruct.vos Model/OrderHist.vos
 Model/Signals.vo Model/Signals.glob Model/Signals.v.beautified Model/Signals.required_vo: Model/Signals.v Gen/GenObserve.vo Model/OrderHist.vo
 Model/Signals.vio: Model/Signals.v Gen/GenObserve.vio Model/OrderHist.vio
 Model/Signals.vos Model/Signals.vok Model/Signals.required_vos: Model/Signals.v Gen/GenObserve.vos Model/OrderHist.vos
@@ -121,15 +124,18 @@ Proofs/ObserveProofs.vos Proofs/ObserveProofs.vok Proofs/ObserveProofs.required_
 Proofs/OrderHistProofs.vo Proofs/OrderHistProofs.glob Proofs/OrderHistProofs.v.beautified Proofs/OrderHistProofs.required_vo: Proofs/OrderHistProofs.v Gen/GenStruct.vo Model/OrderHist.vo
 Proofs/OrderHistProofs.vio: Proofs/OrderHistProofs.v Gen/GenStruct.vio Model/OrderHist.vio
 Proofs/OrderHistProofs.vos Proofs/OrderHistProofs.vok Proofs/OrderHistProofs.required_vos: Proofs/OrderHistProofs.v Gen/GenStruct.vos Model/OrderHist.vos
+Proofs/ReorderProofs.vo Proofs/ReorderProofs.glob Proofs/ReorderProofs.v.beautified Proofs/ReorderProofs.required_vo: Proofs/ReorderProofs.v Gen/GenStruct.vo Model/OrderHist.vo Model/Reorder.vo
+Proofs/ReorderProofs.vio: Proofs/ReorderProofs.v Gen/GenStruct.vio Model/OrderHist.vio Model/Reorder.vio
+Proofs/ReorderProofs.vos Proofs/ReorderProofs.vok Proofs/ReorderProofs.required_vos: Proofs/ReorderProofs.v Gen/GenStruct.vos Model/OrderHist.vos Model/Reorder.vos
 Proofs/SignalProofs.vo Proofs/SignalProofs.glob Proofs/SignalProofs.v.beautified Proofs/SignalProofs.required_vo: Proofs/SignalProofs.v Gen/GenObserve.vo Model/OrderHist.vo Model/Signals.vo
 Proofs/SignalProofs.vio: Proofs/SignalProofs.v Gen/GenObserve.vio Model/OrderHist.vio Model/Signals.vio
 Proofs/SignalProofs.vos Proofs/SignalProofs.vok Proofs/SignalProofs.required_vos: Proofs/SignalProofs.v Gen/GenObserve.vos Model/OrderHist.vos Model/Signals.vos
 Proofs/SortRecovers.vo Proofs/SortRecovers.glob Proofs/SortRecovers.v.beautified Proofs/SortRecovers.required_vo: Proofs/SortRecovers.v 
 Proofs/SortRecovers.vio: Proofs/SortRecovers.v 
 Proofs/SortRecovers.vos Proofs/SortRecovers.vok Proofs/SortRecovers.required_vos: Proofs/SortRecovers.v 
-Props/C01.vo Props/C01.glob Props/C01.v.beautified Props/C01.required_vo: Props/C01.v Lib/NumOps.vo Gen/GenChunk.vo Model/Chunk.vo Proofs/ChunkPartition.vo Gen/GenProto.vo Model/Core.vo Spec/ProtoSpec.vo Proofs/CoreCons.vo Proofs/CoreResult.vo Proofs/SortRecovers.vo
-Props/C01.vio: Props/C01.v Lib/NumOps.vio Gen/GenChunk.vio Model/Chunk.vio Proofs/ChunkPartition.vio Gen/GenProto.vio Model/Core.vio Spec/ProtoSpec.vio Proofs/CoreCons.vio Proofs/CoreResult.vio Proofs/SortRecovers.vio
-Props/C01.vos Props/C01.vok Props/C01.required_vos: Props/C01.v Lib/NumOps.vos Gen/GenChunk.vos Model/Chunk.vos Proofs/ChunkPartition.vos Gen/GenProto.vos Model/Core.vos Spec/ProtoSpec.vos Proofs/CoreCons.vos Proofs/CoreResult.vos Proofs/SortRecovers.vos
+Props/C01.vo Props/C01.glob Props/C01.v.beautified Props/C01.required_vo: Props/C01.v Lib/NumOps.vo Gen/GenChunk.vo Model/Chunk.vo Proofs/ChunkPartition.vo Gen/GenProto.vo Model/Core.vo Spec/ProtoSpec.vo Proofs/CoreCons.vo Proofs/CoreResult.vo Proofs/SortRecovers.vo Gen/GenStruct.vo Model/Reorder.vo Proofs/ReorderProofs.vo
+Props/C01.vio: Props/C01.v Lib/NumOps.vio Gen/GenChunk.vio Model/Chunk.vio Proofs/ChunkPartition.vio Gen/GenProto.vio Model/Core.vio Spec/ProtoSpec.vio Proofs/CoreCons.vio Proofs/CoreResult.vio Proofs/SortRecovers.vio Gen/GenStruct.vio Model/Reorder.vio Proofs/ReorderProofs.vio
+Props/C01.vos Props/C01.vok Props/C01.required_vos: Props/C01.v Lib/NumOps.vos Gen/GenChunk.vos Model/Chunk.vos Proofs/ChunkPartition.vos Gen/GenProto.vos Model/Core.vos Spec/ProtoSpec.vos Proofs/CoreCons.vos Proofs/CoreResult.vos Proofs/SortRecovers.vos Gen/GenStruct.vos Model/Reorder.vos Proofs/ReorderProofs.vos
 Props/C02.vo Props/C02.glob Props/C02.v.beautified Props/C02.required_vo: Props/C02.v Lib/NumOps.vo Gen/GenProto.vo Model/Core.vo Spec/ProtoSpec.vo Proofs/CoreCons.vo Proofs/CoreResult.vo
 Props/C02.vio: Props/C02.v Lib/NumOps.vio Gen/GenProto.vio Model/Core.vio Spec/ProtoSpec.vio Proofs/CoreCons.vio Proofs/CoreResult.vio
 Props/C02.vos Props/C02.vok Props/C02.required_vos: Props/C02.v Lib/NumOps.vos Gen/GenProto.vos Model/Core.vos Spec/ProtoSpec.vos Proofs/CoreCons.vos Proofs/CoreResult.vos
